@@ -136,7 +136,12 @@ func (s *stubHandler) Generate(*csr.ReqParam) ([]csr.AgentKey, error) {
 		}
 		sk := &stubKey{AgentKey: ak}
 		for j := 0; j < s.nCSRs; j++ {
-			sk.csrs = append(sk.csrs, &proto.SSHCertificateSigningRequest{KeyId: fmt.Sprintf("k%d-c%d", i, j), Principals: []string{"p"}, Validity: 3600, PublicKey: string(ssh.MarshalAuthorizedKey(ak.PublicKey()))})
+			// the requests of one key may well share the key id and differ in CA key slot, principals and validity
+			kid := fmt.Sprintf("k%d-c%d", i, j)
+			if (i+s.nCSRs)%2 == 0 {
+				kid = fmt.Sprintf("k%d", i)
+			}
+			sk.csrs = append(sk.csrs, &proto.SSHCertificateSigningRequest{KeyId: kid, KeyMeta: &proto.KeyMeta{Identifier: fmt.Sprintf("slot-%d", j)}, Principals: []string{"p", fmt.Sprintf("p%d", j)}, Validity: uint64(3600 + j), PublicKey: string(ssh.MarshalAuthorizedKey(ak.PublicKey()))})
 		}
 		out = append(out, sk)
 	}
